@@ -50,6 +50,10 @@ class LoopMixin:
         self.pure += 1
         try:
             return self.truthy(self.eval(node, self.inv_frame(frame, extra)))
+        except E.PyExc as pe:
+            # a specification clause that raises is a failed clause, never an exception of the code under verification
+            self.run.imprecise.append(f"specification clause raised {pe.exc.cls}: {text[:60]}")
+            return z3.BoolVal(False)
         finally:
             self.pure -= 1
 
@@ -142,15 +146,15 @@ class LoopMixin:
             if tag in ("#dictitems", "#dictkeys", "#dictvalues"):
                 ref = it.items[1]
                 r = run.rec(ref.oid)
-                # iteration order = ghost sequence of distinct keys
+                # iteration order = ghost sequence of keys of the dict (membership instantiated per visited index;
+                # distinctness of the visited keys is not assumed: a sound over-approximation)
                 ks = z3.Array(f"{r.sym}#order", z3.IntSort(), self.sort_of(r.ktype))
                 n = r.size
-                i, j = z3.Ints("i!ord j!ord")
-                run.assume(z3.ForAll([i], z3.Implies(z3.And(i >= 0, i < n), z3.Select(r.dom, z3.Select(ks, i)))))
-                run.assume(z3.ForAll([i, j], z3.Implies(z3.And(i >= 0, i < j, j < n), z3.Select(ks, i) != z3.Select(ks, j))))
+                dom0 = r.dom
 
                 def elem(k):
                     kt = z3.Select(ks, k)
+                    run.assume(z3.Select(dom0, kt))
                     kv = self.wrap(r.ktype, kt)
                     if tag == "#dictkeys":
                         return kv
